@@ -317,7 +317,15 @@ where
                         continue;
                     }
                 }
-                match catch_unwind(AssertUnwindSafe(|| f(&jobs[i]))) {
+                let jkey = if journal_on() { Some(key(&jobs[i]).replace([' ', '\n', '\t'], "_")) } else { None };
+                if let Some(k) = &jkey {
+                    journal(&format!("S {phase}\t{k}\n"));
+                }
+                let res = catch_unwind(AssertUnwindSafe(|| f(&jobs[i])));
+                if let Some(k) = &jkey {
+                    journal(&format!("F {phase}\t{k}\n"));
+                }
+                match res {
                     Ok(mut out) => {
                         if !out.viol.is_empty() {
                             let k = key(&jobs[i]).replace([' ', '\n', '\t'], "_");
@@ -645,9 +653,149 @@ pub fn finish(ctx: &Ctx, sum: Summary, meta: Meta) -> i32 {
     1
 }
 
+// ---------------------------------------------------------------------------------------------
+// crash isolation: the subject runs inside the check process, so memory corruption in the subject
+// (a double free behind an `unsafe` block, say) kills the whole process. The binary therefore runs its
+// work in a child process that journals every job it starts and finishes; when the child is killed
+// by a signal the parent re-runs each job that was in flight alone, twice, and a job whose isolated
+// process dies both times is reported as a violation of the property (with a replay file).
+
+static JOURNAL: std::sync::OnceLock<Option<Mutex<std::fs::File>>> = std::sync::OnceLock::new();
+
+fn journal_file() -> &'static Option<Mutex<std::fs::File>> {
+    JOURNAL.get_or_init(|| {
+        let p = std::env::var("NIMC_JOURNAL").ok()?;
+        std::fs::OpenOptions::new().create(true).append(true).open(p).ok().map(Mutex::new)
+    })
+}
+
+fn journal_on() -> bool {
+    journal_file().is_some()
+}
+
+fn journal(line: &str) {
+    if let Some(f) = journal_file() {
+        use std::io::Write as _;
+        let _ = f.lock().unwrap().write_all(line.as_bytes());
+    }
+}
+
+fn run_child(extra_env: &[(&str, String)], only_key: Option<&str>) -> std::process::ExitStatus {
+    let exe = std::env::current_exe().expect("own executable");
+    let mut cmd = std::process::Command::new(exe);
+    let mut args: Vec<String> = std::env::args().skip(1).collect();
+    if let Some(k) = only_key {
+        args.push("--only-key".into());
+        args.push(k.into());
+    }
+    cmd.args(args).env("NIMC_CHILD", "1");
+    for (k, v) in extra_env {
+        cmd.env(k, v);
+    }
+    if only_key.is_some() {
+        cmd.stdout(std::process::Stdio::null()).stderr(std::process::Stdio::null());
+    }
+    cmd.status().expect("spawn child process")
+}
+
+fn parent_mode(id: &'static str) -> ! {
+    use std::os::unix::process::ExitStatusExt;
+    let dir = format!("{VERIF_ROOT}/replays");
+    let _ = std::fs::create_dir_all(&dir);
+    let jpath = format!("{dir}/.journal-{id}-{}", std::process::id());
+    let _ = std::fs::remove_file(&jpath);
+    let t0 = Instant::now();
+    let st = run_child(&[("NIMC_JOURNAL", jpath.clone())], None);
+    if let Some(c) = st.code() {
+        let _ = std::fs::remove_file(&jpath);
+        std::process::exit(c);
+    }
+    let sig = st.signal().unwrap_or(0);
+    // jobs that were started and not finished
+    let text = std::fs::read_to_string(&jpath).unwrap_or_default();
+    let _ = std::fs::remove_file(&jpath);
+    let mut open: Vec<(String, String)> = vec![];
+    let mut finished = 0u64;
+    for l in text.lines() {
+        let Some((tag, rest)) = l.split_once(' ') else { continue };
+        let Some((phase, key)) = rest.split_once('\t') else { continue };
+        match tag {
+            "S" => open.push((phase.to_string(), key.to_string())),
+            "F" => {
+                finished += 1;
+                if let Some(p) = open.iter().position(|o| o.0 == phase && o.1 == key) {
+                    open.remove(p);
+                }
+            }
+            _ => {}
+        }
+    }
+    eprintln!("the check process of {id} was killed by signal {sig}; {} job(s) were in flight, re-running each of them alone", open.len());
+    let mut culprits: Vec<(String, i32)> = vec![];
+    for (_, key) in &open {
+        let a = run_child(&[], Some(key));
+        let b = run_child(&[], Some(key));
+        if let (None, None) = (a.code(), b.code()) {
+            culprits.push((key.clone(), a.signal().unwrap_or(0)));
+        }
+    }
+    if culprits.is_empty() {
+        eprintln!("MACHINERY-ERROR property={id} the check process was killed by signal {sig} and no single job reproduces it in isolation");
+        std::process::exit(2);
+    }
+    let tier = std::env::args().nth(1).unwrap_or_else(|| std::env::var("VERIF_TIER").unwrap_or_else(|_| "quick".into()));
+    let tier = if tier == "thorough" { "thorough" } else { "quick" };
+    for (key, s) in &culprits {
+        let path = format!("{dir}/{id}-{:016x}.json", fnv(key));
+        let what = format!("the process running the code under test was killed by signal {s} while working on this case (reproduced twice in a process that ran nothing else): memory corruption or abort inside the subject");
+        let body = Json::Obj(vec![
+            ("property".to_string(), Json::str(id)),
+            ("tier".to_string(), Json::str(tier)),
+            ("key".to_string(), Json::str(key)),
+            ("job".to_string(), Json::str(key)),
+            ("what".to_string(), Json::str(&what)),
+            ("case".to_string(), Json::str(key)),
+            ("replay".to_string(), Json::str(&format!("/verif/bin/check --replay {}", path.replace("/mc/..", "")))),
+        ]);
+        let _ = std::fs::write(&path, format!("{body}\n"));
+        println!("VIOLATION property={id} replay={}", path.replace("/mc/..", ""));
+        println!("  what: {what}");
+    }
+    // evidence of the interrupted run
+    let ev = Json::Obj(vec![
+        ("property_id".to_string(), Json::str(id)),
+        ("tier".to_string(), Json::str(tier)),
+        ("seed".to_string(), Json::Int(0)),
+        ("level".to_string(), Json::str("model_checking")),
+        (
+            "coverage".to_string(),
+            Json::Obj(vec![
+                ("evaluations".to_string(), Json::Int(finished as i128)),
+                ("distinct_nontrivial".to_string(), Json::Int(culprits.len() as i128)),
+                ("rule".to_string(), Json::str("the run was cut short: the process executing the code under test was killed by a signal; counted are the jobs finished before that, non-trivial are the jobs that reproduce the crash alone")),
+                ("samples".to_string(), Json::Arr(culprits.iter().map(|c| Json::str(&c.0)).collect())),
+                ("states".to_string(), Json::Int(finished.max(1) as i128)),
+                ("transitions".to_string(), Json::Int(finished.max(1) as i128)),
+                ("traces_validated_against_impl".to_string(), Json::Int(finished as i128)),
+                ("exhaustive".to_string(), Json::Bool(false)),
+            ]),
+        ),
+        ("assumptions".to_string(), Json::Arr(vec![])),
+        ("wall_s".to_string(), Json::Num(t0.elapsed().as_secs_f64())),
+        ("violations".to_string(), Json::Int(culprits.len() as i128)),
+    ]);
+    let edir = format!("{VERIF_ROOT}/evidence");
+    let _ = std::fs::create_dir_all(&edir);
+    let _ = std::fs::write(format!("{edir}/{id}.json"), format!("{ev}\n"));
+    std::process::exit(1)
+}
+
 /// Standard `main` of a check binary.
 pub fn main_with(id: &'static str, body: fn(&Ctx) -> (Summary, Meta)) -> ! {
     install_panic_hook();
+    if std::env::var_os("NIMC_CHILD").is_none() && std::env::var_os("NIMC_NO_ISOLATION").is_none() {
+        parent_mode(id);
+    }
     let ctx = Ctx::from_env(id);
     let r = catch_unwind(AssertUnwindSafe(|| {
         let (sum, meta) = body(&ctx);
